@@ -7,7 +7,11 @@ package snapshot
 //   VerifC09Algebra   every SnapshotSet query over every shape of <= 4 snapshots
 //   VerifC09Scan      the real SnapshotCatalog.Scan over a store directory (symbolic term / index per
 //                     snapshot, directory order independent of age, leftovers in the directory)
-// (b)/(c) see further down.
+//   VerifC09ScanBroken  an incomplete (non-temporary) directory is reported, never listed
+// (b) full-needed gate, (c) what a sink leaves behind: sink.go (VerifC09Gate, VerifC09Close,
+//     VerifC09Abandon, VerifC09CrashPoints, VerifC09History)
+// fsmodel.go: file-system model of the symbolic run (shared with C12); sweep.go / sweep_test.go:
+// native differential test of that model (run by hand).
 //
 // Oracles are written from the documentation of the types (snapshot.go) and the property text.
 
@@ -61,7 +65,7 @@ func vMkSnap(id string, term, index uint64) *Snapshot {
 // documented (Term, Index, ID) order, and Equal is its equivalence.
 func VerifC09Order() {
 	verifPanicsAreViolations()
-	ids := vOrderIDs[vChoice("ids", 3+3*verifTier())]
+	ids := vOrderIDs[vChoice("ids", 2+4*verifTier())]
 	var sp [3]vSnap
 	var sn [3]*Snapshot
 	for i := range sp {
@@ -283,7 +287,7 @@ func vScanWorld(dir string, maxN int) []vSnap {
 	}
 	pat := pats[vChoice("types", len(pats))]
 	manyWALs := 1
-	if verifTier() == 1 || n < 3 {
+	if verifTier() == 1 {
 		manyWALs = vChoice("manyWALs", 2)
 	}
 	m := make([]vSnap, n)
